@@ -8,7 +8,7 @@
 //!
 //! Families (key=value words, any order):
 //!  qw role=c|s kind=bi|uni|bip skip=N win=N cwin=N swin=N bufs=a.b,c,.. seed=N ids=MASK dbl=J|- dblp=J|- rd=N ps=N|-
-//!     psp=J|- via=conn|opener|clone fault=none|stop:C@N|close:C@N|timeout@N|afin|areset:C@J|lclose:C@J|cfin@J
+//!     psp=J|- via=conn|opener|clone drop=0|1 cf=J|- fault=none|stop:C@N|close:C@N|timeout@N|afin|areset:C@J|lclose:C@J|cfin@J
 //!     (psp = poll_send attempted while buffer J is half written; cfin = the write of buffer J is abandoned at its
 //!      first Pending and the stream finished; via = which `impl OpenStreams` opens the stream / closes)
 //!     (a buffer is a DATA frame with payload chunks a.b.., or hN = HEADERS frame, tT:a.b = stream type T then a
@@ -569,6 +569,7 @@ async fn run_qw(certs: &Certs, c: &Case) -> String {
     let tc = transport(c.n("win", 1 << 20), c.n("cwin", 1 << 22), c.n("swin", 1 << 22), idle_ms);
     let ps_len = c.opt_n("ps");
     let psp = c.opt_n("psp");
+    let cf = c.opt_n("cf");
     let bufs: Vec<BufSpec> = {
         let b = c.s("bufs", "-");
         if b == "-" {
@@ -593,6 +594,10 @@ async fn run_qw(certs: &Certs, c: &Case) -> String {
     let (astream, ps0, pr0) = streams(&mut conn, &mut handle, &p, &kind, skip, kind != "bip").await;
     // for bip the peer opened it and A writes on it; P reads from pr0
     let (done_tx, done_rx) = oneshot::channel::<()>();
+    // drop=1: the adapter stream is dropped right after poll_finish answered Ok and the peer starts reading
+    // only then (what h3 does with every finished request / response stream); needs all data to fit the windows
+    let drop_mode = c.n("drop", 0) == 1;
+    let (start_tx, start_rx) = oneshot::channel::<()>();
     // how many bytes the peer has read (A closes locally only once nothing it wrote is still in flight)
     let (seen_tx, mut seen_rx) = tokio::sync::watch::channel::<u64>(0);
     let wire_lens: Vec<u64> = bufs.iter().enumerate().map(|(j, b)| b.wire(seed, j as u64).len() as u64).collect();
@@ -636,6 +641,9 @@ async fn run_qw(certs: &Certs, c: &Case) -> String {
             }
         };
         let pid: u64 = pr.id().into();
+        if drop_mode {
+            let _ = start_rx.await;
+        }
         let mut chk = PrefixCheck::new(expected);
         let mut buf = vec![0u8; if rd == 0 { 65536 } else { rd }];
         let mut end = String::from("open");
@@ -797,7 +805,8 @@ async fn run_qw(certs: &Certs, c: &Case) -> String {
                 };
             }
             let mut first_pending = true;
-            let break_out = psp == Some(j) || (fname == "cfin" && fat == j);
+            let abandon = (fname == "cfin" && fat == j) || cf == Some(j);
+            let break_out = psp == Some(j) || abandon;
             let r = poll_fn(|cx| match w.poll_ready(cx) {
                 Poll::Pending => {
                     if first_pending {
@@ -822,7 +831,7 @@ async fn run_qw(certs: &Certs, c: &Case) -> String {
             .await;
             let r = match r {
                 Some(r) => r,
-                None if fname == "cfin" => {
+                None if abandon => {
                     // the caller gives up on the pending write (h3's send future dropped) and finishes the stream
                     cancelled = true;
                     let r = poll_fn(|cx| w.poll_finish(cx)).await;
@@ -932,6 +941,13 @@ async fn run_qw(certs: &Certs, c: &Case) -> String {
     }
     q(&w, 4, &mut ids);
     let rid = w.recv_id().map(|x| x.to_string()).unwrap_or_else(|| "-".into());
+    if drop_mode {
+        drop(w);
+        drop(handle);
+        // give a (wrong) reset issued by the drop every chance to overtake the data
+        tokio::time::sleep(Duration::from_millis(20)).await;
+    }
+    let _ = start_tx.send(());
     let _ = done_tx.send(());
     let (recv, end, pid, peer_got) = peer.await.expect("peer task");
     let mut out = format!(
